@@ -284,11 +284,21 @@ class Roles:
         if f is None:
             return None
         c = []
+        # the scan itself, and the private helpers of the class it calls on self (one pass of the scan may
+        # live in a helper generator)
+        funcs = [f]
         for n in walk_local(f.node):
-            if isinstance(n, ast.Assign) and isinstance(n.value, ast.Constant) and n.value.value is True:
-                for t in n.targets:
-                    if isinstance(t, ast.Attribute):
-                        c.append(t.attr)
+            if isinstance(n, ast.Call) and isinstance(n.func, ast.Attribute) and isinstance(n.func.value, ast.Name) \
+                    and n.func.value.id == 'self' and n.func.attr.startswith('_'):
+                g = self.prog.supplier(self.sched, n.func.attr)
+                if g is not None and g not in funcs:
+                    funcs.append(g)
+        for g in funcs:
+            for n in walk_local(g.node):
+                if isinstance(n, ast.Assign) and isinstance(n.value, ast.Constant) and n.value.value is True:
+                    for t in n.targets:
+                        if isinstance(t, ast.Attribute):
+                            c.append(t.attr)
         return c[0] if len(set(c)) == 1 else None
 
     def _accessor_attr(self, name):
